@@ -13,70 +13,193 @@ use crate::tv::{validate, Tv};
 use lipe_find_parser::ast::*;
 use std::collections::HashSet;
 
-/// Scope monitor over the read program. Returns (bindings checked, problem).
+/// Scope monitor over the read program: every generated (`%lf3:`) name is bound exactly once, every
+/// use of one is inside the scope of its binding, and no other binder (lambda parameter, nested
+/// let, internal define) captures a name bound by the outer `let*`. Understands lambda, let, let*,
+/// letrec, named let and internal define. Returns (bindings checked, problem).
 pub fn scope_check(forms: &[Sx]) -> (usize, Option<String>) {
     let letstar = match forms.iter().find(|f| f.head() == Some("let*")) {
-        Some(l) => l.list().unwrap(),
+        Some(l) => l,
         None => return (0, Some("no let* form".into())),
     };
-    let binds = match letstar.get(1).and_then(|b| b.list()) {
-        Some(b) => b,
-        None => return (0, Some("let* without binding list".into())),
-    };
-    let mut bound: Vec<String> = vec![];
-    fn uses(x: &Sx, scope: &Vec<String>, let_names: &HashSet<String>, problem: &mut Option<String>) {
-        match x {
-            Sx::Sym(s) => {
-                if s.starts_with("%lf3:") && !scope.contains(s) && problem.is_none() {
-                    *problem = Some(format!("use of {} before (or without) its binding", s));
+    struct W {
+        problem: Option<String>,
+        bound_count: std::collections::HashMap<String, usize>,
+        outer: HashSet<String>,
+        bindings: usize,
+    }
+    impl W {
+        fn bind(&mut self, name: &str, scope: &mut Vec<String>, is_outer: bool) {
+            self.bindings += 1;
+            if name.starts_with("%lf3:") || is_outer {
+                let c = self.bound_count.entry(name.to_string()).or_insert(0);
+                *c += 1;
+                if *c > 1 && self.problem.is_none() {
+                    self.problem = Some(format!("{} is bound more than once", name));
+                }
+            } else if self.outer.contains(name) && self.problem.is_none() {
+                self.problem = Some(format!("inner binder {} captures a let* binding", name));
+            }
+            scope.push(name.to_string());
+        }
+        fn body(&mut self, body: &[Sx], scope: &Vec<String>) {
+            // internal defines are visible in the whole body
+            let mut inner = scope.clone();
+            for f in body {
+                if f.head() == Some("define") {
+                    if let Some(l) = f.list() {
+                        match l.get(1) {
+                            Some(Sx::Sym(n)) => self.bind(n, &mut inner, false),
+                            Some(Sx::List(sig)) => {
+                                if let Some(n) = sig.first().and_then(|x| x.sym()) {
+                                    self.bind(n, &mut inner, false);
+                                }
+                            }
+                            _ => {}
+                        }
+                    }
                 }
             }
-            Sx::List(l) => {
-                if l.first().and_then(|h| h.sym()) == Some("lambda") && l.len() >= 3 {
-                    let mut inner = scope.clone();
-                    if let Some(ps) = l[1].list() {
-                        for p in ps {
-                            if let Some(n) = p.sym() {
-                                if let_names.contains(n) && problem.is_none() {
-                                    *problem = Some(format!("lambda parameter {} shadows a let* binding", n));
+            for f in body {
+                if f.head() == Some("define") {
+                    let l = f.list().unwrap();
+                    match l.get(1) {
+                        Some(Sx::List(sig)) => {
+                            let mut fs = inner.clone();
+                            for p in sig.iter().skip(1) {
+                                if let Some(n) = p.sym() {
+                                    self.bind(n, &mut fs, false);
                                 }
-                                inner.push(n.to_string());
+                            }
+                            self.body(&l[2..], &fs);
+                        }
+                        _ => {
+                            for e in l.iter().skip(2) {
+                                self.walk(e, &inner);
                             }
                         }
                     }
-                    for b in &l[2..] {
-                        uses(b, &inner, let_names, problem);
-                    }
                 } else {
-                    for i in l {
-                        uses(i, scope, let_names, problem);
-                    }
+                    self.walk(f, &inner);
                 }
             }
-            _ => {}
+        }
+        fn walk(&mut self, x: &Sx, scope: &Vec<String>) {
+            match x {
+                Sx::Sym(s) => {
+                    if s.starts_with("%lf3:") && !scope.contains(s) && self.problem.is_none() {
+                        self.problem = Some(format!("use of {} before (or without) its binding", s));
+                    }
+                }
+                Sx::List(l) => {
+                    let head = l.first().and_then(|h| h.sym());
+                    match head {
+                        Some("quote") => {}
+                        Some("lambda") if l.len() >= 3 => {
+                            let mut inner = scope.clone();
+                            if let Some(ps) = l[1].list() {
+                                for p in ps {
+                                    if let Some(n) = p.sym() {
+                                        self.bind(n, &mut inner, false);
+                                    }
+                                }
+                            }
+                            self.body(&l[2..], &inner);
+                        }
+                        Some(k @ ("let" | "let*" | "letrec")) if l.len() >= 3 => {
+                            let (name, bi) = match &l[1] {
+                                Sx::Sym(n) if k == "let" && l.len() >= 4 => (Some(n.clone()), 2),
+                                _ => (None, 1),
+                            };
+                            let binds: Vec<&Sx> = l[bi].list().map(|b| b.iter().collect()).unwrap_or_default();
+                            let mut inner = scope.clone();
+                            if k == "letrec" {
+                                for b in &binds {
+                                    if let Some(n) = b.list().and_then(|p| p.first()).and_then(|n| n.sym()) {
+                                        self.bind(n, &mut inner, false);
+                                    }
+                                }
+                                for b in &binds {
+                                    if let Some(init) = b.list().and_then(|p| p.get(1)) {
+                                        self.walk(init, &inner);
+                                    }
+                                }
+                            } else {
+                                for b in &binds {
+                                    let p = match b.list() {
+                                        Some(p) => p,
+                                        None => continue,
+                                    };
+                                    if let Some(init) = p.get(1) {
+                                        if k == "let*" {
+                                            self.walk(init, &inner);
+                                        } else {
+                                            self.walk(init, scope);
+                                        }
+                                    }
+                                    if let Some(n) = p.first().and_then(|n| n.sym()) {
+                                        self.bind(n, &mut inner, false);
+                                    }
+                                }
+                            }
+                            if let Some(n) = name {
+                                self.bind(&n, &mut inner, false);
+                            }
+                            self.body(&l[bi + 1..], &inner);
+                        }
+                        _ => {
+                            for i in l {
+                                self.walk(i, scope);
+                            }
+                        }
+                    }
+                }
+                _ => {}
+            }
         }
     }
-    let all_names: HashSet<String> = binds.iter().filter_map(|b| b.list().and_then(|p| p.first()).and_then(|n| n.sym()).map(|s| s.to_string())).collect();
-    let mut problem = None;
+    let l = letstar.list().unwrap();
+    let binds = match l.get(1).and_then(|b| b.list()) {
+        Some(b) => b,
+        None => return (0, Some("let* without binding list".into())),
+    };
+    let outer: HashSet<String> = binds.iter().filter_map(|b| b.list().and_then(|p| p.first()).and_then(|n| n.sym()).map(|s| s.to_string())).collect();
+    let mut w = W { problem: None, bound_count: std::collections::HashMap::new(), outer, bindings: 0 };
+    let mut scope: Vec<String> = vec![];
     for b in binds {
         let pair = match b.list() {
             Some(p) if p.len() == 2 => p,
-            _ => return (bound.len(), Some("malformed binding".into())),
+            _ => return (w.bindings, Some("malformed binding".into())),
         };
         let name = match pair[0].sym() {
             Some(n) => n.to_string(),
-            None => return (bound.len(), Some("binding name is not a symbol".into())),
+            None => return (w.bindings, Some("binding name is not a symbol".into())),
         };
-        uses(&pair[1], &bound, &all_names, &mut problem);
-        if bound.contains(&name) {
-            return (bound.len(), Some(format!("{} is bound twice", name)));
-        }
-        bound.push(name);
+        w.walk(&pair[1], &scope);
+        w.bind(&name, &mut scope, true);
     }
-    for body in &letstar[2..] {
-        uses(body, &bound, &all_names, &mut problem);
+    w.body(&l[2..], &scope);
+    (w.bindings, w.problem)
+}
+
+#[cfg(test)]
+mod tests {
+    use super::scope_check;
+    use crate::sexp::read_all;
+    fn chk(src: &str) -> Option<String> {
+        scope_check(&read_all(src).unwrap()).1
     }
-    (bound.len(), problem)
+    #[test]
+    fn scope_rules() {
+        assert_eq!(chk("(let* ((%lf3:a 1) (%lf3:b (lambda (%lf3:s) (f %lf3:a %lf3:s)))) (%lf3:b 2))"), None);
+        assert!(chk("(let* ((%lf3:a %lf3:b) (%lf3:b 1)) 1)").unwrap().contains("before"));
+        assert!(chk("(let* ((%lf3:a 1) (%lf3:a 2)) 1)").unwrap().contains("more than once"));
+        assert!(chk("(let* ((%lf3:a 1)) (%lf3:zz))").unwrap().contains("before"));
+        assert!(chk("(let* ((port 1) (%lf3:b (lambda (port) port))) 1)").unwrap().contains("captures"));
+        assert_eq!(chk("(let* ((%lf3:m (let () (define (%lf3:p %lf3:s) (streq? \"x\" %lf3:s)) %lf3:p))) (%lf3:m 1))"), None);
+        assert_eq!(chk("(let* ((%lf3:m 1)) (let loop ((i 0)) (if (< i %lf3:m) (loop (+ i 1)) i)))"), None);
+        assert!(chk("(let* ((%lf3:m (lambda (%lf3:s) 1)) (%lf3:n (lambda (%lf3:s) 1))) 1)").unwrap().contains("more than once"));
+    }
 }
 
 fn matcher_requests(e: &Expression) -> HashSet<(String, bool)> {
